@@ -136,6 +136,16 @@ impl Runner for SubprocessRunner {
                 let kind = err.kind();
                 let (stdout, stderr) = err.capture;
 
+                // after a timeout (or any other failure to communicate) the process may
+                // still be running: end it, so that it neither outlives the test run nor
+                // writes into directories that are about to be cleaned up. On windows
+                // non-timeout errors are expected for processes that ended on their own
+                // (see below), so their exit code must stay available.
+                if kind == ErrorKind::TimedOut || !cfg!(windows) {
+                    let _ = process.kill();
+                    let _ = process.wait();
+                }
+
                 // windows execution returns [`ErrorKind::BrokenPipe`] in case
                 // anything explicitly runs `exit <code>`
                 let exit = if cfg!(windows) {
